@@ -12,14 +12,14 @@ from vf.prng import mix
 GROUP_B = ("Z5", "Z6", "Z7", "Z8")
 GROUP_C = ("Z9",)
 GROUP_D = ("Z10", "Z11", "Z12")
-GROUP_E = ("Z13", "Z14")
+GROUP_E = ("Z13", "Z14", "Z15")
 GROUP_MODULES = {"B": universe_b, "C": universe_c, "D": universe_d, "E": universe_e}
 FX_Z7 = 24000  # documents of Z7 whose fix runs are observed by the parser-level monitors
 
-QUICK = {"Z2": 24000, "Z3": 5000, "Z4": 5000, "Z5": 12000, "Z7": 4000, "Z8": 4000, "Z9": 6000, "Z10": 6000, "Z11": 4000, "Z12": 3000, "Z13": 2500, "Z14": 1568}
+QUICK = {"Z2": 24000, "Z3": 5000, "Z4": 5000, "Z5": 12000, "Z7": 4000, "Z8": 4000, "Z9": 6000, "Z10": 6000, "Z11": 4000, "Z12": 3000, "Z13": 2500, "Z14": 1568, "Z15": 1944}
 
 
-def plan_docs(tier, seed, complete=False, quick=None, zones=("Z1", "Z2", "Z3", "Z4", "Z5", "Z6", "Z7", "Z8", "Z9", "Z10", "Z11", "Z12", "Z13", "Z14"), z1_all=True, limit=None, check=None, force_b=False, ranges=None, fx=0):
+def plan_docs(tier, seed, complete=False, quick=None, zones=("Z1", "Z2", "Z3", "Z4", "Z5", "Z6", "Z7", "Z8", "Z9", "Z10", "Z11", "Z12", "Z13", "Z14", "Z15"), z1_all=True, limit=None, check=None, force_b=False, ranges=None, fx=0):
     quick = quick or QUICK
     items = []
     zinfo = {}
